@@ -58,7 +58,7 @@ pub fn property() -> Property {
       name: "discovery events vs model of announced endpoints",
       quick: 8_000,
       thorough: 600_000,
-      max_len: 300,
+      max_len: 360,
       max_threads: 0,
     }],
     run,
@@ -83,6 +83,8 @@ struct REndpoint {
   is_reader: bool,
   topic: usize,
   compatible: bool,
+  /// a compatible endpoint whose announcement leaves every policy unspecified
+  sparse: bool,
   announced: bool,
   /// model of the DiscoveryDB: in the table of external endpoints / in the attic
   in_db: bool,
@@ -161,8 +163,10 @@ fn local_qos() -> QosPolicies {
 }
 
 /// a remote reader requesting more than we offer / a remote writer offering less than we request
-fn remote_qos(is_reader: bool, compatible: bool) -> QosPolicies {
+fn remote_qos(is_reader: bool, compatible: bool, sparse: bool) -> QosPolicies {
   match (is_reader, compatible) {
+    // an announcement without any QoS policy is compatible with everything
+    (_, true) if sparse => QosPolicies::qos_none(),
     (_, true) => local_qos(),
     // remote reader requests Persistent durability: our TransientLocal writer cannot serve it
     (true, false) => QosPolicyBuilder::new()
@@ -259,6 +263,7 @@ pub fn run(_scenario: u32, choices: &[u8], _strict: bool) -> Outcome {
         is_reader,
         topic: c.pick(2),
         compatible: !c.chance(70),
+        sparse: false,
         announced: false,
         in_db: false,
         in_attic: false,
@@ -291,12 +296,21 @@ pub fn run(_scenario: u32, choices: &[u8], _strict: bool) -> Outcome {
       evs.insert(pos, Ev::AddLocal(li));
     }
   }
+  // (drawn last: stored inputs keep decoding)
+  for v in remotes.iter_mut() {
+    for r in v.iter_mut() {
+      r.sparse = c.chance(100);
+      if r.sparse && r.compatible {
+        o.label("compatible-endpoint-announces-no-policies");
+      }
+    }
+  }
   o.sample = format!(
     "local={:?} remote={:?} events={evs:?}",
     local_plan,
     remotes
       .iter()
-      .map(|v| v.iter().map(|e| (e.is_reader, e.topic, e.compatible)).collect::<Vec<_>>())
+      .map(|v| v.iter().map(|e| (e.is_reader, e.topic, e.compatible, e.sparse)).collect::<Vec<_>>())
       .collect::<Vec<_>>()
   );
   o.digest = fnv(o.sample.as_bytes());
@@ -339,7 +353,7 @@ pub fn run(_scenario: u32, choices: &[u8], _strict: bool) -> Outcome {
       }
       Ev::EndpointAnnounce(p, e) => {
         let r = remotes[*p][*e].clone();
-        let q = remote_qos(r.is_reader, r.compatible);
+        let q = remote_qos(r.is_reader, r.compatible, r.sparse);
         if r.is_reader {
           let drd = db
             .write()
